@@ -18,6 +18,8 @@ pub trait QuatT: Copy + 'static {
     fn arr(&self) -> [Self::T; 4];
     fn mul_forms(q: &Self, p: &Self) -> Forms<Self>;
     fn sum_forms(q: &Self, p: &Self) -> Forms<Self>;
+    fn empty_folds() -> Forms<Self>;
+    fn single_folds(q: &Self) -> Forms<Self>;
     fn add(q: &Self, p: &Self) -> Self;
     fn sub(q: &Self, p: &Self) -> Self;
     fn scal(q: &Self, s: Self::T) -> Self;
@@ -54,6 +56,14 @@ macro_rules! quat_impl {
             fn sum_forms(q: &Self, p: &Self) -> Forms<Self> {
                 let l = [*q, *p];
                 vec![("q+p", *q + *p), ("Sum by value", l.iter().copied().sum()), ("Sum by ref", l.iter().sum())]
+            }
+            fn empty_folds() -> Forms<Self> {
+                let e: [Self; 0] = [];
+                vec![("Sum by value of nothing", e.iter().copied().sum()), ("Sum by ref of nothing", e.iter().sum()), ("Product by value of nothing", e.iter().copied().product()), ("Product by ref of nothing", e.iter().product())]
+            }
+            fn single_folds(q: &Self) -> Forms<Self> {
+                let e = [*q];
+                vec![("Sum by value of one", e.iter().copied().sum()), ("Sum by ref of one", e.iter().sum()), ("Product by value of one", e.iter().copied().product()), ("Product by ref of one", e.iter().product())]
             }
             fn add(q: &Self, p: &Self) -> Self {
                 *q + *p
@@ -104,6 +114,12 @@ quat_impl!(Quat, f32, Vec3, |q, v, o| {
     let va = Vec3A::from_array(v);
     o.push(("q*Vec3A", (*q * va).to_array()));
     o.push(("mul_vec3a", q.mul_vec3a(va).to_array()));
+    // the same Vec3A values with junk (finite, infinite, NaN) in the padding lane
+    for (name, h) in [("q*Vec3A [padding 7e29]", 0x7149_f2cau32), ("q*Vec3A [padding +inf]", 0x7f80_0000), ("q*Vec3A [padding NaN]", 0x7fc0_0000), ("q*Vec3A [padding -0.0]", 0x8000_0000)] {
+        let vj = Vec3A::from_vec4(glam::Vec4::new(v[0], v[1], v[2], f32::from_bits(h)));
+        o.push((name, (*q * vj).to_array()));
+        o.push((name, q.mul_vec3a(vj).to_array()));
+    }
 });
 quat_impl!(DQuat, f64, DVec3, |_q, _v, _o| {});
 
@@ -178,6 +194,13 @@ fn check_int<Q: QuatT>(w: &[u64], t: &mut Tally) -> Result<(), Fail> {
     }
     for (form, g) in Q::sum_forms(&q, &p) {
         exact("add", form, g.arr(), [qx + px, qy + py, qz + pz, qw + pw])?;
+    }
+    // folds over nothing and over one element: Sum starts from the zero 4-vector (+ is component-wise), Product from the identity
+    for (form, g) in Q::empty_folds() {
+        exact("sum/product", form, g.arr(), if form.starts_with("Sum") { [0, 0, 0, 0] } else { [0, 0, 0, 1] })?;
+    }
+    for (form, g) in Q::single_folds(&q) {
+        exact("sum/product", form, g.arr(), [qx, qy, qz, qw])?;
     }
     exact("sub", "q-p", Q::sub(&q, &p).arr(), [qx - px, qy - py, qz - pz, qw - pw])?;
     exact("mul_scalar", "q*s", Q::scal(&q, <Q::T as Fl>::of64(s as f64)).arr(), [qx * s, qy * s, qz * s, qw * s])?;
